@@ -201,8 +201,108 @@ def check_structures(rc):
             rc.violation(f'asjson/raises/{type(e).__name__}/{name}', error=str(e)[:150])
 
 
+# ---------------------------------------------------------------- every small object graph
+
+KINDS = ('dict', 'list', 'node', 'ast')
+
+
+def build_graph(kinds, slots):
+    """kinds[i] in KINDS; slots[i] = tuple of targets: container index or -1 (leaf)."""
+    from tatsu.contexts.ast import AST
+    from tatsu.objectmodel import Node
+    objs = []
+    for k in kinds:
+        objs.append({} if k == 'dict' else [] if k == 'list' else Node() if k == 'node' else AST())
+    for i, (k, ss) in enumerate(zip(kinds, slots)):
+        for j, t in enumerate(ss):
+            v = 7 if t < 0 else objs[t]
+            if k == 'list':
+                objs[i].append(v)
+            elif k == 'node':
+                setattr(objs[i], f's{j}', v)
+            elif k == 'ast':
+                objs[i]._set(f's{j}', v) if hasattr(objs[i], '_set') else objs[i].__setitem__(f's{j}', v)
+            else:
+                objs[i][f's{j}'] = v
+    return objs
+
+
+def image(kinds, slots, i, path=()):
+    """Documented conversion: containers on the current path become reference strings."""
+    if i < 0:
+        return 7
+    if i in path:
+        return '<ref>'
+    sub = [image(kinds, slots, t, path + (i,)) for t in slots[i]]
+    k = kinds[i]
+    if k == 'list':
+        return sub
+    d = {f's{j}': x for j, x in enumerate(sub)}
+    if k == 'node':
+        d = {'__class__': 'Node', **d}
+    return d
+
+
+def unref(j):
+    if isinstance(j, str) and '@0x' in j:
+        return '<ref>'
+    if isinstance(j, dict):
+        return {k: unref(v) for k, v in j.items() if not (k in ('ast', 'ctx', 'parseinfo') and v is None)}
+    if isinstance(j, list):
+        return [unref(v) for v in j]
+    return j
+
+
+def shard_graphs(m, items, nslots=2):
+    from tatsu.util.asjson import asjson, asjsons
+    for kinds in items:
+        n = len(kinds)
+        targets = list(range(-1, n))
+        for flat in itertools.product(targets, repeat=n * nslots):
+            slots = [flat[i * nslots:(i + 1) * nslots] for i in range(n)]
+            # every container reachable from container 0 (others are covered by smaller graphs)
+            reach, todo = {0}, [0]
+            while todo:
+                for t in slots[todo.pop()]:
+                    if t >= 0 and t not in reach:
+                        reach.add(t)
+                        todo.append(t)
+            if len(reach) != n:
+                continue
+            objs = build_graph(kinds, slots)
+            want = image(kinds, slots, 0)
+            m.add('evaluations')
+            m.add('graphs')
+            cyclic = '<ref>' in json.dumps(want)
+            if cyclic:
+                m.add('nontrivial')
+            try:
+                got = asjson(objs[0])
+                json.dumps(got)
+                asjsons(objs[0])
+            except RecursionError:
+                m.violation('asjson/does-not-terminate/' + ('cyclic' if cyclic else 'acyclic') + '-object-graph', kinds=kinds, slots=slots)
+                continue
+            except Exception as e:  # noqa
+                m.violation(f'asjson/raises/{type(e).__name__}/object-graph', kinds=kinds, slots=slots, error=str(e)[:150])
+                continue
+            if unref(got) != want:
+                m.violation('asjson/object-graph-image-differs', kinds=kinds, slots=slots, got=unref(got), want=want)
+
+
+def check_graphs(rc):
+    quick = rc.tier == 'quick'
+    items = [k for n in (1, 2) for k in itertools.product(KINDS, repeat=n)]
+    rc.pmap(shard_graphs, items, nslots=2)
+    rc.pmap(shard_graphs, list(itertools.product(KINDS, repeat=3)), nslots=1 if quick else 2, chunk=2)
+    if not quick:
+        rc.pmap(shard_graphs, list(itertools.product(KINDS, repeat=4)), nslots=1, chunk=4)
+    rc.coverage['object_graphs'] = rc.count('graphs')
+
+
 def run(rc):
     quick = rc.tier == 'quick'
+    check_graphs(rc)
     rc.pmap(shard_features, list(c13.FEATURES.items()), chunk=1)
     exps = c01.expressions(2 if quick else 3)
     rc.pmap(shard_exprs, exps, inputs=list(gs.inputs(['a', 'b', ' '], 2)))
@@ -214,7 +314,9 @@ def run(rc):
     rc.rule = (f'{len(c13.FEATURES)} feature grammars x {{JSON, pickle, Python model source}}; every C01 expression tree with <= {2 if quick else 3} nodes x {{JSON, pickle}}; '
                f'{len(stress)} stress strings (style-escape look-alikes, format specs, class markers, quotes, backslashes, literals) as token / one-rule token / keyword / '
                'rule parameter / constant x all three routes; reloaded model compared on facts and on parses; asjson + json.dumps of parse results (AST and object '
-               'model) and of hand-built cyclic/shared structures; non-trivial = accepted input / structure')
+               'model) and of hand-built cyclic/shared structures; every object graph of <= 3 (thorough 4) containers of kind dict/list/Node/AST with '
+               'up to 2 slots each pointing to a container or a leaf: asjson terminates, json.dumps accepts the result, and it equals the documented image '
+               '(containers on the current path become Type@0x.. references, shared ones are repeated); non-trivial = accepted input / cyclic graph')
     rc.assumptions += ['equivalence of parsers is judged on the listed short inputs']
 
 
